@@ -520,11 +520,20 @@ func (p *Proxy) handleConnectRequest(ctx *Context, req *http.Request, session *S
 	// Copy between the connections themselves: bytes must not wait in a buffer
 	// for more to arrive. When one direction ends, pass the end-of-stream on so
 	// that the other side does not have to wait for the idle timeout.
+	var cut sync.Once
 	copySync := func(w net.Conn, r io.Reader, donec chan<- bool) {
-		if _, err := io.Copy(w, r); err != nil && err != io.EOF {
+		_, err := io.Copy(w, r)
+		if err != nil && err != io.EOF {
 			log.Errorf("martian: failed to copy CONNECT tunnel: %v", err)
 		}
-		if cw, ok := w.(interface{ CloseWrite() error }); ok {
+		if ne, ok := err.(net.Error); ok && ne.Timeout() {
+			// The idle timeout is not an end-of-stream of one side: it ends the
+			// tunnel, and both ends get to see that.
+			cut.Do(func() {
+				conn.Close()
+				cconn.Close()
+			})
+		} else if cw, ok := w.(interface{ CloseWrite() error }); ok {
 			cw.CloseWrite()
 		} else {
 			w.Close()
